@@ -56,6 +56,7 @@ package leader
 //@ field kvElection.watcherRunning     atomic
 //@ field kvElection.ctx                guarded_by(mu)
 //@ field kvElection.cancel             guarded_by(mu)
+//@ field kvElection.termCancel        guarded_by(mu)
 //@ field kvElection.onPromote          guarded_by(mu)
 //@ field kvElection.onDemote           guarded_by(mu)
 //@ field kvElection.healthFailureCount owned_by(heartbeatLoop,handleHealthCheckFailure)
@@ -117,6 +118,7 @@ package leader
 //@ lockinv kvElection.mu C02.claim_implies_running:  isLeader ==> (ctx != nil && !stopped)
 //@ lockinv kvElection.mu C18.stopped_implies_state:  stopped ==> state == "STOPPED"
 //@ lockinv kvElection.mu C09+C19.cancel_set_with_ctx:    ctx != nil ==> cancel != nil
+//@ lockinv kvElection.mu C19.term_cancel_set:            isLeader ==> termCancel != nil
 
 // Hooks that apply in every function: whoever stores the claim refreshes the
 // gauge before releasing the mutex; whoever reports a transition reports the
@@ -132,6 +134,7 @@ package leader
 //@   on store kvElection.isLeader as s when !s.value set $claimCleared = true
 //@   on call updateIsLeaderMetric set $gaugeFresh = true
 //@   on call kvElection.cancel assert C19+C09.election_ctx_cancelled_only_by_stop_paths: caller.mayCancelElection
+//@   on call kvElection.termCancel assert C19.term_ctx_cancelled_only_when_claim_cleared: caller.mayCancelTerm
 //@   on unlock kvElection.mu assert C18.gauge_follows_claim: $gaugeFresh
 //@   on call recordTransition as c assert C18.transition_chain: c.fromState == $stateAtLock && c.toState == $stateStored && held(c.e.mu) == 2
 
@@ -356,6 +359,12 @@ package leader
 //@   on call time.After as a assert C17.waits_computed_backoff: a.d == lastBackoff
 //@   on recv time.After set waitedSinceCall = true
 //@   on recv ctx.Done set sawCancel = true
+//@   ghost checkedLive Bool = false
+//@   on ret Context.Err as r when r.ctx == ctx set checkedLive = r.result == nil
+//@   on ret fn set checkedLive = false
+//@   on ret CircuitBreaker.Call set checkedLive = false
+//@   on call fn assert C17.cancellation_checked_before_each_call: checkedLive
+//@   on call CircuitBreaker.Call assert C17.cancellation_checked_before_each_call: checkedLive
 //@   loop 0 invariant C17.retry_count: $v == ncalls && ncalls >= 0 && !lastNil && !lastPerm && !sawCancel && (ncalls == 0 || waitedSinceCall)
 //@   loop 0 invariant C17.retry_bound: cfg.MaxAttempts > 0 ==> ncalls < cfg.MaxAttempts || ncalls == 0
 //@   ensures C17.success_returns_nil: lastNil ==> result == nil
@@ -449,7 +458,7 @@ package leader
 
 //@ func (e *kvElection) becomeLeader(token, rev)
 //@   tags C02 C05 C08 C18 C19 C09
-//@   requires C02+C05.claim_backed_by_own_write: Own(rev) && rev != 0 && PubTok(rev) == token && PubID(rev) == e.cfg.InstanceID && OwnTok(token)
+//@   requires C02+C05+C18.claim_backed_by_own_write: Own(rev) && rev != 0 && PubTok(rev) == token && PubID(rev) == e.cfg.InstanceID && OwnTok(token)
 //@   ghost inBecomeLeader Bool = true
 //@   ghost wasLeaderAtLock Bool = false
 //@   ghost promoteSet Bool = false
@@ -463,7 +472,7 @@ package leader
 //@   on store kvElection.revision set e.revSet = true
 //@   on call onPromote as c assert C05.promote_gets_published_token: c.arg1 == token
 //@   on load kvElection.ctx assert C19+C09.election_ctx_read_under_lock: held(e.mu) >= 1
-//@   on call onPromote as c assert C19.derived_from_election_ctx: origin(c.arg0, "ctx:derived") && origin(ctxof(c.arg0), "field:kvElection.ctx")
+//@   on call onPromote as c assert C19.derived_from_election_ctx: origin(c.arg0, "ctx:derived") && origin(ctxof(c.arg0), "ctx:derived") && origin(ctxof(ctxof(c.arg0)), "field:kvElection.ctx")
 //@   on call ctxcancel assert C19.not_cancelled_early: calls(onPromote) == 1
 //@   on call onPromote assert C08.promote_once_per_activation: calls(onPromote) == 1
 //@   ghost claimed Bool = false
@@ -473,6 +482,7 @@ package leader
 //@   on lock kvElection.mu set ctxNilL = e.ctx == nil
 //@   on store kvElection.isLeader as s when s.value set claimed = true
 //@   ensures C08.promote_once: spawns(becomeLeader$3) == ((claimed && promoteSet) ? 1 : 0)
+//@   ensures C08.promotion_goroutine_calls_back: scalls(onPromote) == ((claimed && promoteSet) ? 1 : 0)
 //@   ensures C09.no_promote_after_stop: stateL == "STOPPED" || ctxNilL ==> !claimed && spawns(becomeLeader$1) == 0 && spawns(becomeLeader$2) == 0 && spawns(becomeLeader$3) == 0
 //@   ensures C02.claims_when_running: stateL != "STOPPED" && !ctxNilL ==> claimed && spawns(becomeLeader$1) == 1 && spawns(becomeLeader$2) == 1
 
@@ -488,6 +498,8 @@ package leader
 //@   requires C07+C10.no_demotion_without_cause: unlessLeader || caller.demote_cause
 //@   ghost out cleared Bool = false
 //@   ghost termCancelled Bool = false
+//@   ghost mayCancelTerm Bool = false
+//@   on store kvElection.isLeader as s when !s.value set mayCancelTerm = cleared
 //@   ghost watcherSeen Bool = false
 //@   ghost ctxSeen Bool = false
 //@   on lock kvElection.mu set cleared = e.isLeader
@@ -496,6 +508,9 @@ package leader
 //@   on call cancel set termCancelled = true
 //@   on call ctxcancel set termCancelled = true
 //@   on call termCancel set termCancelled = true
+//@   ghost wrArmed Bool = false
+//@   on store kvElection.watcherRunning as s when !inspawn() set wrArmed = s.value
+//@   on spawn demote$1 assert C13+C06.one_watch_loop_at_a_time: !watcherSeen && wrArmed
 //@   ghost wrCleared Bool = false
 //@   on store kvElection.watcherRunning as s when inspawn() set wrCleared = !s.value
 //@   on ret demote$1 assert C06+C18.watcher_flag_cleared_on_exit: wrCleared
@@ -503,7 +518,7 @@ package leader
 //@   on store kvElection.isLeader assert C07.settling_never_clears_a_claim: unlessLeader ==> !cleared
 //@   ensures C07.settling_reports_nothing_cleared: unlessLeader ==> !result
 //@   ensures C08.reports_cleared: !unlessLeader ==> result == cleared
-//@   ensures C19.cancelled_on_demotion: cleared ==> termCancelled
+//@   ensures C19.cancelled_on_demotion: cleared && !unlessLeader ==> termCancelled
 //@   ghost stateL Int = 0
 //@   on lock kvElection.mu set stateL = e.state
 //@   ensures C06.failed_round_rearms: stateL != "STOPPED" && !(unlessLeader && cleared) && ctxSeen && !watcherSeen ==> spawns(demote$1) == 1
@@ -560,7 +575,7 @@ package leader
 //@   on select as s assert C09.stop_waits_time_boxed: s.blocking ==> s.hasAfter
 //@   ensures C08.demote_iff_claim_cleared: result == nil && !ctxNilL ==> (wasLeaderL ? (calls(onDemote) + scalls(onDemote) == 1 || (calls(onDemote) + scalls(onDemote) == 0 && demoteNilSeen)) : calls(onDemote) + scalls(onDemote) == 0)
 //@   ensures C09.delete_issued: result == nil && !ctxNilL && opts.DeleteKey && wasLeaderL ==> calls(KeyValue.Delete) == 1
-//@   ensures C01+C02.delete_only_with_option: !(opts.DeleteKey && wasLeaderL) ==> calls(KeyValue.Delete) == 0
+//@   ensures C01+C02+C07.delete_only_with_option: !(opts.DeleteKey && wasLeaderL) ==> calls(KeyValue.Delete) == 0
 //@   ensures C09.second_stop: ctxNilL ==> result == ErrAlreadyStopped && calls(cancel) == 0 && calls(onDemote) == 0 && calls(KeyValue.Delete) == 0
 
 //@ func (e *kvElection) Status()
@@ -714,6 +729,11 @@ package leader
 //@   on call time.After as a assert C03+C07.timeout_value: a.d == max(e.cfg.HeartbeatInterval / 2, 1000000000)
 //@   on call KeyValue.Update assert C03.attempt_time_boxed: inspawn()
 //@   on call KeyValue.Get assert C03.attempt_time_boxed: inspawn()
+//@   ghost spawned updErr Int = 0
+//@   ghost spawned updRev Int = 0
+//@   on ret KeyValue.Update as u set updErr = u.result1
+//@   on ret KeyValue.Update as u set updRev = u.result0
+//@   on recv local as r assert C03+C07.result_of_this_attempt: r.value.err == updErr && r.value.rev == updRev
 //@   on recv local as r set attErr = r.value.err
 //@   on recv local as r set failed = r.value.err != nil
 //@   on recv time.After set failed = true
@@ -1097,6 +1117,8 @@ package leader
 //@   on spawn Updates$1$1 assert C14.updates_stable: inonce()
 //@ func (a *natsWatcherAdapter) Stop()
 //@   tags C14
+//@   on call nats.KeyWatcher.Stop as c assert C14.stop_passthrough: c.recv == a.watcher
+//@   ensures C14.stop_always_releases_the_watch: calls(nats.KeyWatcher.Stop) == 1
 
 //@ func (a *MockWatcherAdapter) Updates()
 //@   tags C14 C20
